@@ -32,7 +32,9 @@ type Mutex struct {
 //go:norace
 func hold(g *simrt.G, m any) {
 	if g != nil {
+		simrt.RaceOff()
 		g.Held = append(g.Held, m)
+		simrt.RaceOn()
 	}
 }
 
@@ -41,7 +43,9 @@ func unhold(g *simrt.G, m any) {
 	if g != nil {
 		for i := len(g.Held) - 1; i >= 0; i-- {
 			if g.Held[i] == m {
+				simrt.RaceOff()
 				g.Held = append(g.Held[:i], g.Held[i+1:]...)
+				simrt.RaceOn()
 				return
 			}
 		}
@@ -64,7 +68,9 @@ func (m *Mutex) Lock() {
 		return
 	}
 	w := &waiter{ch: make(chan struct{}), g: g}
+	simrt.RaceOff()
 	m.waiters = append(m.waiters, w)
+	simrt.RaceOn()
 	if g != nil {
 		g.Tag = "mutex.Lock"
 	}
@@ -105,7 +111,9 @@ func (m *Mutex) Unlock() {
 	if n := len(m.waiters); n > 0 {
 		i := simrt.Intn(n)
 		w := m.waiters[i]
+		simrt.RaceOff()
 		m.waiters = append(m.waiters[:i], m.waiters[i+1:]...)
+		simrt.RaceOn()
 		m.owner = w.g
 		hold(w.g, m)
 		close(w.ch) // ownership handed over, stays locked
@@ -154,7 +162,9 @@ func (m *RWMutex) RLock() {
 		return
 	}
 	w := &waiter{ch: make(chan struct{}), g: g}
+	simrt.RaceOff()
 	m.waiters = append(m.waiters, w)
+	simrt.RaceOn()
 	if g != nil {
 		g.Tag = "rwmutex.RLock"
 	}
@@ -198,7 +208,9 @@ func (m *RWMutex) Lock() {
 		return
 	}
 	w := &waiter{ch: make(chan struct{}), writer: true, g: g}
+	simrt.RaceOff()
 	m.waiters = append(m.waiters, w)
+	simrt.RaceOn()
 	if g != nil {
 		g.Tag = "rwmutex.Lock"
 	}
@@ -245,7 +257,9 @@ func (m *RWMutex) release() {
 			m.readers++
 		}
 		hold(w.g, m)
+		simrt.RaceOff()
 		m.waiters = append(m.waiters[:i], m.waiters[i+1:]...)
+		simrt.RaceOn()
 		close(w.ch)
 	}
 }
@@ -297,7 +311,9 @@ func (wg *WaitGroup) Wait() {
 		return
 	}
 	c := make(chan struct{})
+	simrt.RaceOff()
 	wg.waiters = append(wg.waiters, c)
+	simrt.RaceOn()
 	g := simrt.Cur()
 	if g != nil {
 		g.Tag = "wg.Wait"
